@@ -637,5 +637,15 @@ PROPS["C07"]["explanation"] += " (UNITS) in VSread/VSwrite pointers into the cal
 PROPS["C07"]["rules"] = PROPS["C07"]["rules"] + [rules_loops.rule_record_skip_siblings]
 PROPS["C07"]["explanation"] += " (SKIPSIB) the four field-major re-positioning steps of VSread/VSwrite skip by the same quantity."
 
+PROPS["C15"]["rules"] = PROPS["C15"]["rules"] + [rules_loops.rule_cursor_advances_with_use]
+PROPS["C15"]["explanation"] += " (USEADV) the scales-record cursor of hdf_read_ndgs is advanced exactly in the arm that records it as a coordinate variable's data offset."
+
+PROPS["C12"]["rules"] = PROPS["C12"]["rules"] + [rules_dd.rule_link_written_in_predecessor]
+PROPS["C12"]["explanation"] += " (LINKPOS) HTInew_dd_block writes the link to a new DD block at a position computed from the block that was last."
+PROPS["C02"]["rules"] = PROPS["C02"]["rules"] + [rules_dd.rule_link_written_in_predecessor]
+
+PROPS["C09"]["rules"] = PROPS["C09"]["rules"] + [rules_gr.rule_axis_guards_independent]
+PROPS["C09"]["explanation"] += " (AXISGUARD) in GRwriteimage a decision on one axis' start/stride is not nested inside a test on the other axis."
+
 NOT_APPLICABLE = {}
 
